@@ -13,7 +13,7 @@
      finished s (id, result of the sender chain) once the queue's Done callback has run
      store s    persistent queue: ids whose body is in the storage *)
 From Coq Require Import Permutation.
-From Verif Require Import Common.Base C03.Model C03.Proofs C03.ProofsB C03.Proofs2 C03.Proofs3.
+From Verif Require Import Common.Base C03.Model C03.Proofs C03.ProofsB C03.Proofs2 C03.Proofs3 C03.Obs C03.ProofsObs.
 
 (* ---- in-memory queue ---------------------------------------------------------------------------
    When Shutdown has returned, every request accepted before Shutdown was called has been handed to the
@@ -176,6 +176,44 @@ Theorem shutdown_without_queue : forall c ls s,
   rstop s = c_retry c /\ forallb is_caller (works s) = true /\ live s = length (works s) /\ postb s = 0.
 Proof. exact direct_returned_l. Qed.
 
+(* ---- the property on OBSERVED behaviour ---------------------------------------------------------------
+   Obs.v [prop_viol] checks the clauses on a recorded schedule of the implementation without the model's step
+   function (the check driver runs it on every recorded case: an independent oracle, and the source of the
+   failing input when model and implementation disagree).  It decides exactly the Prop-level clauses: *)
+Theorem observed_clauses_decided : forall pb mode mx q ps fin,
+  prop_viol ([b2n pb; 0; 0; mode; 0; 0; 0; 0; 0; mx; q], ps, fin) = 0 <-> SchedProp (b2n pb) mode mx q ps fin.
+Proof. exact sched_ok_iff. Qed.
+
+Theorem observed_refcount_decided : forall codes ps fin,
+  prop_viol (9 :: codes, ps, fin) = 0 <-> (In 3 codes -> fst fin = [1]).
+Proof. exact refcount_ok_iff. Qed.
+
+(* no NEW attempt after the return: in a run of the exporter's own labels (no further Send, no back-off timer branch)
+   the number of export begins is bounded by the works that had not yet reached the export function ([ready]);
+   in particular a work in back-off or already answered never begins again *)
+Theorem no_new_attempt_without_queue : forall c ls1 s1 ls2 s2,
+  c_queue c = false -> run c (init c) ls1 = Some s1 -> run c s1 ls2 = Some s2 -> forallb ranked ls2 = true ->
+  ready s2 + sumf is_begin ls2 <= ready s1.
+Proof.
+  exact (fun c ls1 s1 ls2 s2 Q R1 R2 Rk =>
+           run_ready c ls2 s1 s2 (run_inv c ls1 (init c) s1 (init_inv c) R1) Q R2 Rk).
+Qed.
+
+(* "all export calls have returned" is FALSE for an exporter without queue (nothing to join; the call runs on
+   the caller's goroutine): witness, replayed by the queue-less family of the harness
+   (histogram direct_return_with_call_open) *)
+Theorem calls_returned_without_queue_refuted : exists c ls s,
+  c_queue c = false /\ run c (init c) ls = Some s /\ pc s = PReturned /\
+  cnt 1 (begun s) = 1 /\ cnt 1 (ended s) = 0 /\ live s = 1.
+Proof. exact direct_open_call_refuted_l. Qed.
+
+(* the hypothesis 1 <= c_ncons of shutdown_drains_memory is necessary; the real code rejects num_consumers <= 0
+   (queuebatch.Config.Validate) *)
+Theorem drains_memory_needs_a_consumer_refuted : exists c ls s,
+  c_queue c = true /\ c_persist c = false /\ c_ncons c = 0 /\ run c (init c) ls = Some s /\ pc s = PReturned /\
+  In 1 (accpre s) /\ cnt 1 (begun s) = 0.
+Proof. exact no_consumer_refuted_l. Qed.
+
 (* ---- the model that the correspondence run executes is this LTS ---------------------------------- *)
 Theorem scheduler_runs_are_runs : forall hc acts ls evss s,
   exec hc [] (init (h_cfg hc)) acts = Some (ls, evss, s) -> run (h_cfg hc) (init (h_cfg hc)) ls = Some s.
@@ -200,4 +238,9 @@ Print Assumptions close_stop_stops_retry.
 Print Assumptions backoff_released_by_stop.
 Print Assumptions shutdown_without_queue_never_waits.
 Print Assumptions shutdown_without_queue.
+Print Assumptions observed_clauses_decided.
+Print Assumptions observed_refcount_decided.
+Print Assumptions no_new_attempt_without_queue.
+Print Assumptions calls_returned_without_queue_refuted.
+Print Assumptions drains_memory_needs_a_consumer_refuted.
 Print Assumptions scheduler_runs_are_runs.
